@@ -207,6 +207,10 @@ package paillier
 //@   ensures result1 != nil ==> result0 == nil
 // decryption fails exactly on ciphertexts that do not validate under the key
 //@   ensures (result1 == nil) == ctvalid(sk.PublicKey, ct)
+// (C12) the decrypted value, as computed: L(c^phi mod N^2) * phi^-1 mod N with L(x) = (x-1)/N, in the symmetric range.
+// That this is m for c = Enc(m; rho), |m| <= (N-1)/2, N = pq, phi = (p-1)(q-1), phiInv = phi^-1 mod N is textbook
+// Paillier correctness (lemma c12_decrypt, lemmas/lean).
+//@   ensures[C12] result1 == nil ==> natval(result0) == symmod((((modexp(natval(ct.c), natval(sk.phi), natval(sk.PublicKey.nSquared.Modulus)) - 1) / natval(sk.PublicKey.n.Modulus)) * natval(sk.phiInv)) % natval(sk.PublicKey.n.Modulus), natval(sk.PublicKey.n.Modulus))
 //@ func (*SecretKey).DecWithRandomness
 //@   nopanic[C05]
 //@   requires skwf(sk)
@@ -219,6 +223,9 @@ package paillier
 //@ func NewSecretKeyFromPrimes
 //@   nopanic[C05,C15]
 //@   requires P != nil && Q != nil
+// (C12) the numbers decryption computes with: N = P*Q, phi = (P-1)(Q-1), phiInv = phi^-1 mod N, and the cached N^2, N+1
+//@   ensures[C12] (natval(P) >= 1 && natval(Q) >= 1) ==> (natval(result.PublicKey.nNat) == natval(P) * natval(Q) && natval(result.PublicKey.n.Modulus) == natval(P) * natval(Q) && natval(result.phi) == (natval(P) - 1) * (natval(Q) - 1) && natval(result.phiInv) == modinv(natval(result.phi), natval(P) * natval(Q)))
+//@   ensures[C12] (natval(P) >= 1 && natval(Q) >= 1) ==> (natval(result.PublicKey.nSquared.Modulus) == (natval(P) * natval(P)) * (natval(Q) * natval(Q)) && natval(result.PublicKey.nPlusOne) == natval(P) * natval(Q) + 1)
 //@   modifies nothing
 //@   allocates
 //@   ensures result != nil && fresh(result) && result.PublicKey != nil && fresh(result.PublicKey) && pkok(result.PublicKey) && result.p == P && result.q == Q && result.phi != nil && result.phiInv != nil
